@@ -71,14 +71,14 @@ type Param struct {
 }
 
 type Cfg struct {
-	Version    *string
-	VersionRaw *Raw
-	Meta       *Meta
-	Params     []Param
-	Services   []Service
-	Decorators []Decorator
+	Version                               *string
+	VersionRaw                            *Raw
+	Meta                                  *Meta
+	Params                                []Param
+	Services                              []Service
+	Decorators                            []Decorator
 	HasParams, HasServices, HasDecorators bool
-	TopOrder   []string // order of top-level keys; default version, meta, parameters, services, decorators
+	TopOrder                              []string // order of top-level keys; default version, meta, parameters, services, decorators
 }
 
 func P[T any](v T) *T { return &v }
